@@ -253,7 +253,11 @@ func init() {
 		if n < 0 {
 			return []Outcome{e.panicOut(st, "sync: negative WaitGroup counter")}
 		}
-		st.setAux(wgKey(p), e.tb.Int64(n))
+		if n == 0 {
+			delAux(st, wgKey(p))
+		} else {
+			st.setAux(wgKey(p), e.tb.Int64(n))
+		}
 		return one(st, nil)
 	})
 	reg("(*sync.WaitGroup).Wait", func(e *Engine, st *State, args []Value, fn *ssa.Function) []Outcome {
